@@ -100,7 +100,8 @@ fn emit_with(text: &str, opts: &Opts) -> Result<String, BuildErr> {
     });
     match r {
         Ok(x) => x,
-        Err(p) => std::panic::resume_unwind(p),
+        // a crash of the analyzer / emitter is C11's subject, not this property's
+        Err(_) => Err(BuildErr::Analyze(vec!["panic inside analysis or emission".into()])),
     }
 }
 
